@@ -258,7 +258,7 @@ func vNewEnv() *vEnv {
 	e := &vEnv{}
 	e.srv, e.cc = vNewServer()
 	e.other = vNewClient(e.srv, "other")
-	e.am = &vStubAM{getResult: &hotline.Account{Login: "bob", Name: "Bob", Password: "H:old"}, list: []hotline.Account{{Login: "bob", Name: "Bob", Password: "H:"}}}
+	e.am = &vStubAM{getResult: &hotline.Account{Login: "bob", Name: "Bob", Password: "H:zzold"}, list: []hotline.Account{{Login: "bob", Name: "Bob", Password: "H:zz"}}}
 	e.ban = &vStubBan{}
 	e.news = &vStubNews{itemIsCategory: vBool("news_item_is_category")}
 	e.board = &vStubBoard{}
